@@ -546,6 +546,27 @@ def decode_address(rep, idx):
     is_none = c.norm(c.parse("A is None", env))
     atoms = (is_none, is_res, is_win)
 
+    # "nothing assigned here" is `is None`; the truth value of the looked-up object is another question (a resource may be any object:
+    # an empty container, something with __bool__ or __len__)
+    looked = {st.targets[0].id for st in ast.walk(c.fi.node) if isinstance(st, ast.Assign) and len(st.targets) == 1 and
+              isinstance(st.targets[0], ast.Name) and isinstance(st.value, ast.Call) and isinstance(st.value.func, ast.Attribute) and
+              st.value.func.attr == "get" and ast.unparse(st.value.func.value).endswith("_ranges")}
+    for n in ast.walk(c.fi.node):
+        if isinstance(n, (ast.If, ast.While, ast.IfExp)):
+            t = n.test
+            while isinstance(t, ast.UnaryOp) and isinstance(t.op, ast.Not):
+                t = t.operand
+            parts = t.values if isinstance(t, ast.BoolOp) else [t]
+            for p_ in parts:
+                while isinstance(p_, ast.UnaryOp) and isinstance(p_.op, ast.Not):
+                    p_ = p_.operand
+                if isinstance(p_, ast.Name) and p_.id in looked:
+                    rep.bad("C03.6", site, "an address inside a resource decodes to that resource",
+                            f"`{ast.unparse(n.test)[:50]}` tests the *truth value* of the looked-up object where `is None` is meant: a resource "
+                            "that is falsy (an empty container, an object with __bool__ / __len__) is reported by all_resources() and "
+                            "find_resource() and decodes to nothing", line=n.lineno)
+                    return
+
     def consistent(a):
         return not (a[is_none] and (a[is_res] or a[is_win]))            # None is in neither table
     rets = [(c.norm(v), guard_table(c, gen, ln, atoms, consistent)) for v, gen, ln in c.t.returns] + \
